@@ -179,6 +179,7 @@ fn generate(rep: &mut Report, seed: u64, index: u64, steps: usize) -> Hist {
     let mut scratch = Report::new("C13", "gen", "", seed);
     let flags = Flags { verify_each_step: true, ..Flags::default() };
     let mut eng = Eng::new(&mut scratch, "C13", "c13", seed, index, flags, 0);
+    eng.jump_at = None; // the children replay the operations only
     let mut outcomes = vec![];
     for _ in 0..steps {
         if eng.aborted {
